@@ -1287,6 +1287,15 @@ class SendCollector(typing.Generic[KT]):
     def cancel(self) -> None:
         self._handle.cancel()
 
+    def flush(self) -> None:
+        """
+        send the collected data now instead of waiting for the timeout
+        """
+        if self.done:
+            return
+        self._handle.cancel()
+        self._handle_timeout()
+
 
 class ServiceAnnouncer:
     # TODO doc
@@ -1307,6 +1316,24 @@ class ServiceAnnouncer:
         if self.timings.SEND_COLLECTION_TIMEOUT == 0:
             self.sd.send_sd([entry], remote=remote)
             return
+
+        if (
+            entry.sd_type == someip.header.SOMEIPSDEntryType.OfferService
+            and entry.ttl == 0
+        ):
+            # StopOffer: offers for the same service instance that still wait in
+            # another destination's collector (answers to FindService) must not leave
+            # after it. Send those collectors now.
+            for other in list(self.send_queues.values()):
+                if other.done or other.kwargs.get("remote") == remote:
+                    continue
+                if any(
+                    queued.sd_type == entry.sd_type
+                    and queued.service_id == entry.service_id
+                    and queued.instance_id == entry.instance_id
+                    for queued in other.data
+                ):
+                    other.flush()
 
         queue = self.send_queues.get(remote)
         if queue is None or queue.done:
